@@ -376,8 +376,9 @@ def drum_gap(ctx, rule='DRUM/gap'):
     except nf.NFError:
       return None
   assigns = [s2 for s2 in loop.body if isinstance(s2, ast.Assign) and len(s2.targets) == 1 and isinstance(s2.targets[0], ast.Name)]
-  gaps = [s2 for s2 in assigns if s2.lineno > st[0].lineno and rat_or_none(s2.value) is not None and rat_or_none(s2.value).equals(nf.rat(E(idx)) + nf.rat(E('1')))]
-  any_after = [s2 for s2 in assigns if s2.lineno > st[0].lineno]
+  after_test = [s2 for s2 in assigns if s2.lineno > brk[0].lineno]      # the origin is moved after the gap test of this hit, before or after the store
+  gaps = [s2 for s2 in after_test if rat_or_none(s2.value) is not None and rat_or_none(s2.value).equals(nf.rat(E(idx)) + nf.rat(E('1')))]
+  any_after = after_test
   ok_upd = len(gaps) == 1
   gname = gaps[0].targets[0].id if gaps else (any_after[0].targets[0].id if len(any_after) == 1 else None)
   init = [s2 for s2 in fn.body if isinstance(s2, ast.Assign) and gname and norm_text(s2.targets[0]) == gname and s2.lineno < loop.lineno]
